@@ -166,6 +166,18 @@ def nocache(x, context=None):
     return x
 
 
+def ctxmut(x, name="mlist", context=None):
+    """mutates, in place, the value of a state variable as seen through the context (has no visible effect on the
+    result: the result's variables come from the command's own state copy)"""
+    _log("ctxmut")
+    v = context.vars.get(name)
+    if isinstance(v, list):
+        v.append("ctx")
+    elif isinstance(v, dict):
+        v["ctx"] = 1
+    return x
+
+
 # ---- state-taking commands ---------------------------------------------------
 
 def getvar(state, name):
@@ -281,7 +293,7 @@ def after3(x):
 
 
 FIRST = [one, lit, num, flt, mk, firstcat]
-DATA = [add, mulf, flagged, pair, none_default, optint, unann, cat, ident, withctx, sub, nocache, boom, needs,
+DATA = [add, mulf, flagged, pair, none_default, optint, unann, cat, ident, withctx, sub, nocache, ctxmut, boom, needs,
         push, setkey, dfcol, after1, after2, after3]
 STATE = [getvar, tag, mutvar]
 ATTRS = {"attr_up": dict(ABC="abc"), "attr_low": dict(abc="x"), "vol": dict(volatile=True)}
